@@ -2,8 +2,9 @@ SPEC = {
     "id": "C08",
     "level": "proof",
     "props": ["props/C08.vo"],
-    "tie": ["props/C08_tieA.vo"],
-    "gen_items": ["src/bytes.rs:simplify_range_mono", "src/common.rs:range_mono", "src/bytes/raw.rs:try_range_of"],
+    "tie": ["props/C08_tieA.vo", "tie/StrEquiv.vo"],
+    "gen_items": ["src/bytes.rs:simplify_range_mono", "src/common.rs:range_mono", "src/bytes/raw.rs:try_range_of", "src/bytes.rs + src/string.rs:try_slice / slice / truncate (checked entry points)"],
+    "tieA_required": True,
     "case_libs": ["theories/CasesRange.vo"],
     "drivers": [{"driver": "range", "profiles": ["debug", "release"]}],
     "exhaustive": True,
